@@ -161,9 +161,11 @@ Proof.
 Qed.
 
 (* ---- the state invariant ---- *)
-(* two slices of one chunk never overlap, and the earlier one lies below the later one *)
+(* two slices of one chunk never overlap (the name is historical: slices pushed by push / push_copy appear in address
+   order, but sub-slices of an anchored input pushed piecewise -- Encoder::encode_anchored, Decoder::decode_anchored --
+   interleave with copies allocated after the input was read, so only disjointness is an invariant) *)
 Definition sl_before (a b : gsl) : Prop :=
-  match a, b with SArena c o l, SArena c' o' _ => c = c' -> o + l <= o' | _, _ => True end.
+  match a, b with SArena c o l, SArena c' o' l' => c = c' -> o + l <= o' \/ o' + l' <= o | _, _ => True end.
 
 Record GInv (h : heap) (g : giov) : Prop := {
   gi_heap : heap_ok h;
